@@ -12,16 +12,21 @@
 (***************************************************************************)
 EXTENDS StoreTrace
 
+CONSTANT DevJ   \* TRUE only to CLASSIFY a rejected SyncMap trace: the named deviation below is allowed
+
 VARIABLES silentOK,   \* a silent cycle is still allowed in the current gap
-          chk         \* line whose observed contents still have to be matched (0 = none)
+          chk,        \* line whose observed contents still have to be matched (0 = none)
+          late        \* keys whose long-expired entry was overwritten by a Write (a running cycle may have seen it)
 
-JVars == <<vars, l, silentOK, chk>>
+JVars == <<vars, l, silentOK, chk, late>>
 
-JInit == TraceInit /\ silentOK = TRUE /\ chk = 0 /\ TLCSet(1, 1)
+JInit == TraceInit /\ silentOK = TRUE /\ chk = 0 /\ late = {} /\ TLCSet(1, 1)
 
 (* The operation of the next line happens; the recorder looks at the contents a moment LATER, and the janitor may have    *)
 (* worked in between, so the contents are matched by a separate step (JVerify) that a silent cycle may precede.          *)
-JOp == chk = 0 /\ TraceOpNoState /\ chk' = l /\ silentOK' = TRUE
+JOp ==
+  /\ chk = 0 /\ TraceOpNoState /\ chk' = l /\ silentOK' = TRUE
+  /\ late' = IF Ev.op.name = "Write" /\ Holds(Ev.op.k) /\ Deletable(slot[Hash[Ev.op.k]]) THEN late \cup {Ev.op.k} ELSE late
 
 (* At a recorded Cleanup line the cache_items gauge (reported by its own goroutine, read after two reports) equals the   *)
 (* number of entries.                                                                                                    *)
@@ -30,9 +35,9 @@ JVerify ==
   /\ StateProj = SetOf(Trace[chk].st)
   /\ (Trace[chk].op.name = "Cleanup" => Trace[chk].met.items = Cardinality(Used(slot)))
   /\ chk' = 0 /\ silentOK' = TRUE
-  /\ UNCHANGED <<vars, l>>
+  /\ UNCHANGED <<vars, l, late>>
 
-JReset == chk = 0 /\ TraceReset /\ silentOK' = TRUE /\ chk' = 0
+JReset == chk = 0 /\ TraceReset /\ silentOK' = TRUE /\ chk' = 0 /\ late' = {}
 
 (* The timer fired.  The recorder may look at the cache while a cycle is still working through the shards, so a silent   *)
 (* step removes ANY SUBSET of the entries the cycle is entitled to remove - never anything else.                         *)
@@ -43,9 +48,20 @@ JSilent ==
         /\ S # {}
         /\ slot' = [h \in Slots |-> IF h \in S THEN None ELSE slot[h]]
   /\ silentOK' = FALSE
-  /\ UNCHANGED <<now, expSeen, clk, op, reply, met, cnt, l, chk>>
+  /\ UNCHANGED <<now, expSeen, clk, op, reply, met, cnt, l, chk, late>>
 
-JNext == JOp \/ JVerify \/ JReset \/ JSilent
+(* Named deviation of SyncMap (known finding KF-C08-1 / KF-C11-1, defect D14): its janitor checks an entry and then      *)
+(* deletes BY KEY, so the entry a Write stored over a long-expired one while the cycle was running can be removed,       *)
+(* whatever its expiry.  Enabled only when a rejected trace is re-judged for classification.                            *)
+JLate ==
+  /\ DevJ /\ l <= Len(Trace) + 1
+  /\ \E k \in late :
+        /\ Holds(k)
+        /\ slot' = [slot EXCEPT ![Hash[k]] = None]
+        /\ late' = late \ {k}
+  /\ UNCHANGED <<now, expSeen, clk, op, reply, met, cnt, l, chk, silentOK>>
+
+JNext == JOp \/ JVerify \/ JReset \/ JSilent \/ JLate
 JSpec == JInit /\ [][JNext]_JVars
 
 HighWater == TLCSet(1, IF l > TLCGet(1) THEN l ELSE TLCGet(1))
